@@ -2,7 +2,7 @@
 CONF = {
     'coq_sample': 15,   # cases re-evaluated inside Coq by vm_compute against the extracted runner's output
     'interesting': ['truncated-prefix-of-valid', 'length-extreme', 'length-field', 'trailer-stripped', 'residue-length',
-                    'min-frame-padding', 'dirty-buffer', 'no-fixlengths', 'length-boundary'],
+                    'min-frame-padding', 'dirty-buffer', 'no-fixlengths', 'length-boundary', 'field-extreme', 'min-frame-boundary'],
     'rule': 'Ethernet II and 802.3 frames built field by field by the harness, decoded, serialized under all option/buffer '
             'combinations over payloads of 0,1,2,45,46,47,59,60,100 bytes (60 byte minimum padding) and round-tripped; every '
             'truncation length 0..15; the type/length field forced to 0,1,3,len-1,len,len+1,1500,1501,0x5ff,0x600,0x601; ordered '
